@@ -16,8 +16,8 @@ if "known_findings.json" in [l[3:] for l in st.splitlines() if l.startswith("UU"
             o = next(x for x in ours["findings"] if x["id"] == f["id"])
             if o != f: print("CONFLICTING finding id", f["id"], "ours:", o["property"], "theirs:", f["property"], "-> kept ours; theirs:", json.dumps(f)[:300])
     json.dump(ours, open("known_findings.json", "w"), indent=1)
-for p in ("MANIFEST.json", "lean/Verif.lean", "lean/Verif/Driver.lean"):
+for p in ("MANIFEST.json", "lean/Verif.lean", "lean/Verif/Driver.lean", "seeded/RESULTS.json"):
     subprocess.run(["git", "checkout", "--ours", p], capture_output=True)
 subprocess.run(["python3", "tools/gen_index.py"]); subprocess.run(["python3", "tools/gen_manifest.py"])
-subprocess.run(["git", "add", "known_findings.json", "MANIFEST.json", "lean/Verif.lean", "lean/Verif/Driver.lean"])
+subprocess.run(["git", "add", "known_findings.json", "MANIFEST.json", "lean/Verif.lean", "lean/Verif/Driver.lean", "seeded/RESULTS.json"])
 print(subprocess.run(["git", "status", "--short"], capture_output=True, text=True).stdout)
